@@ -9,6 +9,7 @@ use std::panic::{catch_unwind, AssertUnwindSafe};
 use std::sync::Arc;
 use std::sync::mpsc::SyncSender;
 
+use codeq::OffsetSize;
 use raft_log::api::raft_log_writer::RaftLogWriter;
 use raft_log::{Config, RaftLog, Types};
 
@@ -169,4 +170,19 @@ fn kf_c02_lower_term_reappend_unreadable_after_restart_with_small_cache() {
     let got: Vec<_> = rl.read(1, 2).collect();
     assert_eq!(got.len(), 1);
     assert!(got[0].is_err(), "live entry of the open chunk is readable again after a restart with a small cache");
+}
+
+#[test]
+fn kf_c11_write_that_fills_the_chunk_returns_the_next_chunks_head_segment() {
+    let d = tempfile::tempdir().unwrap();
+    let mut c = cfg(d.path().to_str().unwrap());
+    c.chunk_max_records = Some(3);
+    let mut rl = open(&c).unwrap();
+    let s1 = rl.save_vote((1, 1)).unwrap();
+    // third record of chunk 0: the chunk is full, a new chunk is started
+    let s2 = rl.save_vote((2, 2)).unwrap();
+    // the record of the second vote directly follows the first one ...
+    let own_start = s1.offset().0 + *s1.size();
+    // ... but the reported segment is the new chunk's head snapshot
+    assert_ne!(s2.offset().0, own_start, "a write that fills the chunk now reports its own segment");
 }
